@@ -397,3 +397,10 @@ Theorem C16_code_tie_migrations_are_wired :
   forall row, In row module_migrations -> migrations_wired row = true.
 Proof. apply Forall_forall. vm_compute. repeat constructor. Qed.
 Print Assumptions C16_code_tie_migrations_are_wired.
+
+(* non-vacuity: the test refuses a migration registered from the current version, and a raised version without a
+   migration leading to it *)
+Example C16_migrations_wired_refuses :
+  migrations_wired ("rns"%string, (3, [2; 3])%nat) = false /\ migrations_wired ("rns"%string, (4, [2])%nat) = false /\
+  migrations_wired ("rns"%string, (4, [2; 3])%nat) = true.
+Proof. vm_compute. repeat split. Qed.
